@@ -1,5 +1,5 @@
 (* Shared basics: characters are code points (N), strings are lists of them. *)
-From Coq Require Export List NArith ZArith Bool Arith Lia String.
+From Coq Require Export List NArith ZArith Bool Arith Lia.
 Export ListNotations.
 Notation char := N (only parsing).
 Notation str := (list N) (only parsing).
